@@ -153,8 +153,7 @@ Qed.
 (* non-vacuity *)
 Example c20_example_lin :
   let progs := fun t => match t with 0 => [OLoadOrStoreFn 0 1; OLoad 0] | 1 => [OLoadOrStoreFn 0 2; ODelete 0] | _ => [] end in
-  match srun true (sinit progs) [(0,None);(0,None);(1,None);(1,None);(0,None);(1,None);(0,None);(1,None);
-                                 (1,None);(0,None);(1,None);(0,None);(0,None);(1,None)] with
+  match srun true (sinit progs) [(0,None);(0,None);(0,None);(1,None);(1,None);(1,None);(0,None);(1,None);(0,None);(1,None);(1,None);(1,None);(0,None);(0,None);(0,None);(1,None)] with
   | Some (c, tr) => (map snd (lin_seq tr), sm c)
   | None => ([], [])
   end
